@@ -210,9 +210,10 @@ def run(ck):
             ('hashed-asan-3x1', va, 'asan', False, CFG_LOG, 3, 1, 'hashed', False),
             # all interleavings at FUNCTION-ENTRY granularity (state = thread positions counted in function entries + sync points)
             ('fn-hashed-asan-drop-2x1', vf, 'asan', True, CFG_DROP, 2, 1, 'hashed', True),
-            ('fn-hashed-asan-2x1', vf, 'asan', True, CFG_LOG, 2, 1, 'hashed', False),
             ('hashed-tsan-2x2', vt, 'tsan', False, CFG_LOG, 2, 2, 'hashed', False),
             ('hashed-asan-2x3', va, 'asan', False, CFG_LOG, 2, 3, 'hashed', False),
+            # the largest campaign last (about 170 000 executions): if the deadline cuts it, everything above has completed
+            ('fn-hashed-asan-2x1', vf, 'asan', True, CFG_LOG, 2, 1, 'hashed', False),
         ]
     for p in plan:
         if ck.out_of_time():
